@@ -1,20 +1,26 @@
 (* C05 — Retry makes a bounded number of attempts and returns the last outcome.
-   Model: Model/Retry.v.  Two layers share the transcription of the loop body of
-   Retry::call ([after_outcome]):
+   Model: Model/Retry.v (time in nanoseconds; the tokio timer fires at the first whole
+   millisecond at or after a deadline, [ceil_ms]; every poll of a call future has a
+   cooperative budget, Lib/TokioTime.v).  Two layers share the transcription of the loop
+   body of Retry::call ([after_outcome]):
+   * [step c inps pf cp]: the call futures of any number of requests sharing one token
+     bucket, at poll granularity (Poll i / Advance d / Complete i / MakeReady i), for ALL
+     event lists = all interleavings and all polling schedules, all micro-step bounds [pf]
+     and all cooperative budgets [cp] per poll.  This is the layer the correspondence check
+     runs against the real RetryLayer (run_script = step with pf = poll_fuel, cp = COOP = 128).
    * [retry_run c hb max inner ready grant t0]: one request as a function of
        inner a = (time until the result of attempt a is observed, Ok v | Fail e)
-       ready a = (extra wait before attempt a >= 1 beyond the backoff — 0 when polled
-                  promptly and the service is ready —, readiness error if any)
+       ready a = (extra wait before attempt a >= 1 beyond the end of the backoff sleep — 0
+                  when polled promptly and the service is ready —, readiness error if any)
        grant a = the budget's answer to the withdrawal asked after attempt a failed
      for ALL such streams, all predicates (c.(pred) : option (Err -> bool)), all backoff
-     functions (c.(backoff) : nat -> Z, ms), all max (incl. 0; per-request values are just
+     functions (c.(backoff) : nat -> Z, ns), all max (incl. 0; per-request values are just
      different [max]), budget configured or not ([hb]).
-   * [step]: the call futures of any number of requests sharing one token bucket, at
-     poll granularity (Poll i / Advance d / Complete i / MakeReady i), for ALL event
-     lists = all interleavings and all polling schedules.  This is the layer the
-     correspondence check runs against the real RetryLayer.
+   [C05_step_refines_run] ties the layers: whatever the step machine did for a request that
+   has returned is a run of [retry_run] on streams read off its log, so theorems 1-6 speak
+   about what run_script executes.
    Only statements, `exact`, and Print Assumptions. *)
-From TR Require Import Lib.Base Model.Retry Proof.Retry.
+From TR Require Import Lib.Base Lib.TokioTime Model.Retry Proof.Retry.
 
 (* 1 <= number of inner calls <= max 1 max_attempts *)
 Theorem C05_attempt_bounds :
@@ -28,7 +34,7 @@ Print Assumptions C05_attempt_bounds.
 (* attempts are numbered 0..n-1 and see the stream's outcomes; every attempt before the
    last failed with an error the predicate accepts, below max_attempts, was granted a
    withdrawal (if a budget is configured) and found the service ready; the last attempt
-   is characterised by [last_is] according to the reason the loop stopped:
+   is characterised according to the reason the loop stopped:
    first success / first refused error / attempt number max / first denied withdrawal /
    readiness error before the next attempt. *)
 Theorem C05_stops_at_first :
@@ -74,9 +80,12 @@ Theorem C05_returns_last :
 Proof. exact @returns_last. Qed.
 Print Assumptions C05_returns_last.
 
-(* attempt k+1 starts exactly backoff(k) (clamped at 0: a Duration) plus the extra wait
-   after the failure of attempt k was observed: never earlier than failure + backoff,
-   and exactly then under prompt polling of a ready service *)
+(* attempt k+1 starts when the backoff sleep that began when the failure of attempt k was
+   observed is over — deadline dl = failure + backoff(k) (clamped at 0: a Duration), rounded
+   up to a whole millisecond by the timer — plus the extra wait: never earlier than
+   failure + backoff (any backoff, also below a millisecond), less than a millisecond
+   after dl under prompt polling of a ready service, and exactly at dl when dl is a whole
+   millisecond *)
 Theorem C05_backoff_before_retry :
   forall (Res Err : Type) (c : cfg Err) (hb : bool) (max : nat)
          (inner : nat -> Z * outcome Res Err) (ready : nat -> Z * option Err)
@@ -85,11 +94,12 @@ Theorem C05_backoff_before_retry :
     (exists cl rest, calls r = cl :: rest /\ c_start cl = t0) /\
     (forall cl, In cl (calls r) -> c_end cl = c_start cl + Z.max 0 (fst (inner (c_idx cl)))) /\
     (forall l1 c1 c2 l2, calls r = l1 ++ c1 :: c2 :: l2 ->
+       let dl := c_end c1 + Z.max 0 (backoff c (c_idx c1)) in
        c_idx c2 = S (c_idx c1) /\
-       c_start c2 = c_end c1 + Z.max 0 (backoff c (c_idx c1)) + Z.max 0 (fst (ready (c_idx c2))) /\
+       c_start c2 = ceil_ms dl + Z.max 0 (fst (ready (c_idx c2))) /\
        c_start c2 >= c_end c1 + backoff c (c_idx c1) /\
-       (fst (ready (c_idx c2)) <= 0 -> 0 <= backoff c (c_idx c1) ->
-        c_start c2 = c_end c1 + backoff c (c_idx c1))).
+       (fst (ready (c_idx c2)) <= 0 -> c_start c2 < dl + MS) /\
+       (fst (ready (c_idx c2)) <= 0 -> (exists k, dl = k * MS) -> c_start c2 = dl)).
 Proof. exact @backoff_before_retry. Qed.
 Print Assumptions C05_backoff_before_retry.
 
@@ -124,58 +134,99 @@ Theorem C05_budget_sequential :
 Proof. exact @budget_sequential. Qed.
 Print Assumptions C05_budget_sequential.
 
-(* ---- poll-granular model: any number of requests, one token bucket, any event list ---- *)
+(* ---- the step machine: any number of requests, one token bucket, any event list ---- *)
+
+(* refinement.  In any reachable state, for a request i whose future has returned (x, w):
+   the run of [retry_run] on the streams read off its log — outcomes [snd (r_inner ..)] and
+   readiness errors [rdy_err (r_ready ..)] of the wrapped service, observed durations and
+   extra waits, the recorded budget answers — makes exactly the logged calls (same attempt
+   numbers, instants, outcomes), returns x for reason w, and issues exactly the budget
+   operations recorded for request i, in order.  Hence theorems 1-6 hold of what the step
+   machine (and so run_script) does. *)
+Theorem C05_step_refines_run :
+  forall (Res Err : Type) (c : cfg Err) (inps : nat -> rin Res Err) (pf cp : nat)
+         (b0 : option bucket) (evs : list ev) (i : nat) (x : Res + Err) (w : why),
+    wf_bucket b0 ->
+    let s := fold_left (step_st c inps pf cp) evs (init b0) in
+    res (reqs s i) = Some (x, w) ->
+    let l := log (reqs s i) in
+    let inner := fun k => (w_dur l k, snd (r_inner (inps i) k)) in
+    let ready := fun k => (w_slack c l k, rdy_err (r_ready (inps i) k)) in
+    let r := retry_run c (is_some b0) (r_max (inps i)) inner ready (w_grant l w) (w_t0 l) in
+    calls r = rev l /\ result r = x /\ reason r = w /\ ops r = ops_of i (oplog s).
+Proof. exact @step_refines_run. Qed.
+Print Assumptions C05_step_refines_run.
 
 (* total retries (inner calls beyond the first, summed over requests 0..n-1) never exceed
    the initial content of the bucket plus one token per deposit; the balance never
    goes negative *)
 Theorem C05_shared_budget :
-  forall (Res Err : Type) (c : cfg Err) (inps : nat -> rin Res Err) (k0 : bucket)
+  forall (Res Err : Type) (c : cfg Err) (inps : nat -> rin Res Err) (pf cp : nat) (k0 : bucket)
          (evs : list ev) (n : nat),
     0 <= tokens k0 -> 0 <= max_tokens k0 ->
     Forall (fun s => exists k, bud s = Some k /\ 0 <= tokens k /\
               Z.of_nat (sumn (fun i => retries (reqs s i)) n) * SCALE + tokens k <=
               tokens k0 + Z.of_nat (all_deposits (oplog s)) * SCALE)
-           (states (step_st c inps) (init (Some k0)) evs).
+           (states (step_st c inps pf cp) (init (Some k0)) evs).
 Proof. exact @shared_budget. Qed.
 Print Assumptions C05_shared_budget.
 
 (* every request, in every reachable state of every schedule: at most max 1 max_attempts
-   inner calls started; the log of finished calls is well formed ([wf_log]: consecutive
-   attempt numbers, the wrapped service's outcomes, every call but the newest failed
-   retryably below max_attempts, and the next call started no earlier than that failure
-   was observed + backoff), the same for the call in flight; the future has returned iff
-   it is Done, and what it returned is characterised by [done_spec] (last outcome, or
-   the readiness error; with the reason) *)
+   inner calls started; no grant, no retry: when a budget is configured the request has
+   made at most as many retries as withdrawals were granted to it; the log of finished
+   calls is well formed ([wf_log]: consecutive attempt numbers, the wrapped service's
+   outcomes, every call but the newest failed retryably below max_attempts, the next call
+   started no earlier than the end of the backoff sleep for that failure, on an instance
+   whose readiness poll did not fail), the same for the call in flight; the future has
+   returned iff it is Done, and what it returned is characterised by [done_spec] (last
+   outcome, or the readiness error; with the reason), its budget operations being one
+   granted withdrawal per retry followed by the reason's own operation *)
 Theorem C05_any_schedule :
-  forall (Res Err : Type) (c : cfg Err) (inps : nat -> rin Res Err) (b0 : option bucket)
-         (evs : list ev),
+  forall (Res Err : Type) (c : cfg Err) (inps : nat -> rin Res Err) (pf cp : nat)
+         (b0 : option bucket) (evs : list ev),
     wf_bucket b0 ->
     Forall (fun s => forall i,
               let r := reqs s i in
+              let hb := is_some b0 in
               (length (started_calls r) <= Nat.max 1 (r_max (inps i)))%nat /\
+              (hb = true -> (retries r <= ngr (ops_of i (oplog s)))%nat) /\
               wf_log c (inps i) (log r) /\
               (forall av prev rest, ph r = PCalling av -> log r = prev :: rest ->
-                 retryable c (inps i) prev /\
-                 c_end prev + Z.max 0 (backoff c (c_idx prev)) <= cur_start r) /\
+                 retryable c (inps i) prev /\ wake_at c prev <= cur_start r /\
+                 not_rerr (r_ready (inps i) (attempt r))) /\
               (ph r = PDone <-> res r <> None) /\
-              (forall x w, res r = Some (x, w) -> done_spec c (inps i) (is_some b0) r x w))
-           (states (step_st c inps) (init b0) evs).
+              (forall x w, res r = Some (x, w) ->
+                 done_spec c (inps i) hb r x w /\
+                 ops_of i (oplog s) = gr hb (length (log r) - 1) ++ tail_ops hb w))
+           (states (step_st c inps pf cp) (init b0) evs).
 Proof. exact @any_schedule. Qed.
 Print Assumptions C05_any_schedule.
 
-(* one Poll event in any reachable state: Pending only when the future really waits
-   (inner call in flight, backoff not elapsed, service not ready) — the poll loop never
-   runs out of fuel —; a deposit happens exactly when the poll returns Ok (and a budget
-   is configured); a denied withdrawal makes the poll return the error at once *)
+(* progress of one Poll event in any reachable state, provided the micro-step bound is
+   large enough for the budget (4 * cp + 3 < pf; true of run_script's values,
+   Proof/Retry.v Examples.script_fuel_enough): a poll returns Pending only when the future
+   really waits (inner call in flight, backoff sleep not over, service not ready), or when
+   the cooperative budget of the poll is used up — then at least cp - 1 backoff sleeps (so
+   cp - 1 attempts) were completed in this one poll, the future stands at a sleep or at a
+   gated inner call, and it has woken itself (the wake flag is set), so it is polled again;
+   a deposit happens exactly when the poll returns Ok (and a budget is configured); a denied
+   withdrawal makes the poll return the error at once *)
 Theorem C05_poll_event :
-  forall (Res Err : Type) (c : cfg Err) (inps : nat -> rin Res Err) (b0 : option bucket)
-         (evs : list ev) (i : nat),
-    wf_bucket b0 ->
-    let s := fold_left (step_st c inps) evs (init b0) in
-    let s' := fst (step c inps s (Poll i)) in
-    let o := snd (step c inps s (Poll i)) in
-    (o_res o = Pending -> waiting (inps i) (now s) (reqs s' i)) /\
+  forall (Res Err : Type) (c : cfg Err) (inps : nat -> rin Res Err) (pf cp : nat)
+         (b0 : option bucket) (evs : list ev) (i : nat),
+    wf_bucket b0 -> (4 * cp + 3 < pf)%nat ->
+    let s := fold_left (step_st c inps pf cp) evs (init b0) in
+    let s' := fst (step c inps pf cp s (Poll i)) in
+    let o := snd (step c inps pf cp s (Poll i)) in
+    (o_res o = Pending -> o_self o = false -> waiting (inps i) (now s) (reqs s' i)) /\
+    (o_self o = true ->
+       o_res o = Pending /\ woken s' i = true /\
+       (cp <= S (attempt (reqs s' i) - attempt (reqs s i)))%nat /\
+       match ph (reqs s' i) with
+       | PSleeping _ => True
+       | PCalling _ => fst (r_inner (inps i) (attempt (reqs s' i))) = true
+       | _ => False
+       end) /\
     (o_res o = Nothing -> ph (reqs s i) = PDone /\ reqs s' i = reqs s i) /\
     (forall x, o_res o = Ready x ->
        ph (reqs s i) <> PDone /\ ph (reqs s' i) = PDone /\ exists w, res (reqs s' i) = Some (x, w)) /\
@@ -185,22 +236,40 @@ Theorem C05_poll_event :
 Proof. exact @poll_event. Qed.
 Print Assumptions C05_poll_event.
 
-(* exactness of the backoff at poll granularity: a poll before the sleep deadline
-   (= failure observed + backoff) changes nothing; the first poll at or after it, with
-   the service ready, issues attempt k+1 at that very instant *)
+(* the budget operations of one poll are the token bucket's own answers, operation by
+   operation ([ops_ok]: a withdrawal is recorded as denied only when the bucket holds less
+   than one token at that moment, as granted only when it holds one), and the bucket
+   afterwards is the bucket after those operations; for every request, retries never exceed
+   the withdrawals granted to that request *)
+Theorem C05_poll_ops_consistent :
+  forall (Res Err : Type) (c : cfg Err) (inps : nat -> rin Res Err) (pf cp : nat)
+         (b0 : option bucket) (evs : list ev) (i : nat),
+    wf_bucket b0 ->
+    let s := fold_left (step_st c inps pf cp) evs (init b0) in
+    let s' := fst (step c inps pf cp s (Poll i)) in
+    let o := snd (step c inps pf cp s (Poll i)) in
+    ops_ok (bud s) (o_ops o) /\ bud s' = apply_ops (bud s) (o_ops o) /\
+    (forall j, is_some b0 = true -> (retries (reqs s' j) <= grants_of j (oplog s'))%nat).
+Proof. exact @poll_ops_consistent. Qed.
+Print Assumptions C05_poll_ops_consistent.
+
+(* exactness of the backoff at poll granularity: a poll (with budget left) before the
+   sleep deadline (= failure observed + backoff, rounded up to a millisecond) changes
+   nothing; the first poll at or after it, with the service ready, issues attempt k+1 at
+   that very instant *)
 Theorem C05_poll_before_deadline :
-  forall (Res Err : Type) (c : cfg Err) (inp : rin Res Err) (f : nat) (t : Z)
+  forall (Res Err : Type) (c : cfg Err) (inp : rin Res Err) (f k : nat) (t : Z)
          (r : rst Res Err) (b : option bucket) (dl : Z),
-    ph r = PSleeping dl -> t < dl -> drive c inp (S f) t r b = (r, b, [], Pending).
+    ph r = PSleeping dl -> t < dl -> drive c inp (S f) (S k) t r b = (r, b, [], Pending, false).
 Proof. exact @poll_before_deadline. Qed.
 Print Assumptions C05_poll_before_deadline.
 
 Theorem C05_poll_at_deadline :
-  forall (Res Err : Type) (c : cfg Err) (inp : rin Res Err) (f : nat) (t : Z)
+  forall (Res Err : Type) (c : cfg Err) (inp : rin Res Err) (f k : nat) (t : Z)
          (r : rst Res Err) (b : option bucket) (dl : Z),
     ph r = PSleeping dl -> dl <= t -> r_ready inp (S (attempt r)) = ROk ->
-    drive c inp (S (S f)) t r b =
-    drive c inp f t (mkRst (PCalling (negb (fst (r_inner inp (S (attempt r)))))) (S (attempt r)) t
-                           (log r) (res r)) b.
+    drive c inp (S (S f)) (S k) t r b =
+    drive c inp f k t (mkRst (PCalling (negb (fst (r_inner inp (S (attempt r)))))) (S (attempt r)) t
+                             (log r) (res r)) b.
 Proof. exact @poll_at_deadline. Qed.
 Print Assumptions C05_poll_at_deadline.
